@@ -33,9 +33,8 @@ func runC16(c *Ctx) {
 			why = append(why, fmt.Sprintf("%d Backup calls", len(calls)))
 		} else {
 			md := p.XLocal(p.TermOf(callCommon(calls[0]).Args[0]), cb)
-			ok := md.Op == "call" && md.Fn != nil && md.Fn.Name() == "Sprintf" && len(md.Args) == 2 && md.Args[0].Name == `"%d"` && md.Args[1].Op == "list" && len(md.Args[1].Args) == 1
+			v, ok := decimalOf(md)
 			if ok {
-				v := md.Args[1].Args[0]
 				ok = v.Op == "binop" && v.Name == "-" && v.Args[1].Name == "1" && v.Args[0].Op == "call" && v.Args[0].Fn != nil && v.Args[0].Fn.Name() == "Version" && v.Args[0].Args[0].IsField("balloon", isParam(cb, 0))
 			}
 			if !ok {
@@ -221,4 +220,36 @@ func runC16(c *Ctx) {
 	recoveryHeightAgreement(c, "R5")
 	c.Rule("R6", "a restore replaces the directory's content (old write-ahead logs are not kept)", 1)
 	restoreDropsOldLogs(c, "R6")
+}
+
+// decimalOf: t renders an integer in decimal — Sprintf("%d", v), Sprint(v), strconv.FormatUint/FormatInt(v, 10), strconv.Itoa(v).
+func decimalOf(t *Term) (*Term, bool) {
+	if t.Op != "call" || t.Fn == nil || t.Fn.Pkg == nil {
+		return nil, false
+	}
+	stripConv := func(x *Term) *Term {
+		for x.Op == "convert" && len(x.Args) == 1 {
+			x = x.Args[0]
+		}
+		return x
+	}
+	switch t.Fn.Pkg.Pkg.Path() + "." + t.Fn.Name() {
+	case "fmt.Sprintf":
+		if len(t.Args) == 2 && (t.Args[0].Name == `"%d"` || t.Args[0].Name == `"%v"`) && t.Args[1].Op == "list" && len(t.Args[1].Args) == 1 {
+			return stripConv(t.Args[1].Args[0]), true
+		}
+	case "fmt.Sprint":
+		if len(t.Args) == 1 && t.Args[0].Op == "list" && len(t.Args[0].Args) == 1 {
+			return stripConv(t.Args[0].Args[0]), true
+		}
+	case "strconv.FormatUint", "strconv.FormatInt":
+		if len(t.Args) == 2 && t.Args[1].Op == "const" && t.Args[1].Name == "10" {
+			return stripConv(t.Args[0]), true
+		}
+	case "strconv.Itoa":
+		if len(t.Args) == 1 {
+			return stripConv(t.Args[0]), true
+		}
+	}
+	return nil, false
 }
